@@ -46,6 +46,7 @@ def env_setup(silence_stderr: bool = True) -> None:
     if _ENV_READY:
         return
     os.environ[GUARD] = '1'
+    os.environ['PROGRESSBAR_DISABLE_FASTPATH'] = '1'    # count checked on every record, not at time-driven redraws
     os.environ.setdefault('TZ', 'UTC')
     time.tzset()
     sys.dont_write_bytecode = True
